@@ -461,15 +461,78 @@ func c15Stores(c *sim.Case) {
 	c.NonTrivial()
 }
 
+// c15Binary: hostile requests over gRPC against the built service binary (cmd/main.go), so that the interceptors
+// and the real listener are in the path; a panic anywhere kills the process, which is what the check looks for.
+func c15Binary(c *sim.Case) {
+	if sim.ServiceBinary() == "" {
+		c.Skip("no service binary")
+	}
+	w := sim.NewWorld(c, sim.WorldOpts{ViaServer: true, RealFactory: true, Binary: true, Logout: true, AccessToken: true,
+		Store: sim.PickStr(c, "store", "memory", "redis"), TriggerRules: coveringRules(c, "/a")})
+	defer w.Close()
+	w.Full.LogLevel = "debug"
+	b := w.NewBrowser("a")
+	lr := b.Login("/a")
+	sid := ""
+	if lr.Final != nil && lr.Final.OK {
+		sid = b.SID()
+	}
+	n := 5 + sim.Pick(c, "nreq", 40)
+	for i := 0; i < n; i++ {
+		var req *envoy.CheckRequest
+		switch sim.Weighted(c, "shape", 1, 1, 1, 10) {
+		case 0:
+			req = &envoy.CheckRequest{}
+		case 1:
+			req = &envoy.CheckRequest{Attributes: &envoy.AttributeContext{}}
+		case 2:
+			req = &envoy.CheckRequest{Attributes: &envoy.AttributeContext{Request: &envoy.AttributeContext_Request{}}}
+		default:
+			hreq := &envoy.AttributeContext_HttpRequest{
+				Scheme: sim.PickStr(c, "scheme", "https", "http", "", "ftp"),
+				Host:   sim.PickStr(c, "host", w.AppHost, "", "a b", "[::1"),
+				Path:   hostilePath(c),
+				Method: sim.PickStr(c, "method", "GET", "POST", ""),
+			}
+			if sim.Weighted(c, "headers", 1, 6) == 1 {
+				hreq.Headers = map[string]string{"cookie": hostileCookie(c, w.CookieName(), sid)}
+				if sim.Bool(c, "reqid") {
+					hreq.Headers["x-request-id"] = c.Str("rid", "ab-\x00\n\"{}", 0, 12)
+				}
+			}
+			req = &envoy.CheckRequest{Attributes: &envoy.AttributeContext{Request: &envoy.AttributeContext_Request{Http: hreq}}}
+		}
+		md := map[string]string{}
+		if sim.Weighted(c, "metadata", 3, 1) == 1 {
+			md["x-request-id"] = c.Str("md.rid", "ab-{}\"", 0, 10)
+		}
+		r := w.Svc.CheckRaw(req, md)
+		if !w.Svc.Alive() {
+			tail := w.Svc.LogTail(4000)
+			c.Logf("%s", tail)
+			sig := "service-died"
+			if m := regexp.MustCompile(`authservice/internal[\w/]*\.\(?\*?(\w+)\)?\.?(\w*)\(`).FindStringSubmatch(tail); m != nil {
+				sig = "service-died:" + m[1] + m[2]
+			}
+			c.Violation(sig, "the service process terminated while answering request #%d (path %q, cookie %q): %v", i, short(req.GetAttributes().GetRequest().GetHttp().GetPath(), 40), short(req.GetAttributes().GetRequest().GetHttp().GetHeaders()["cookie"], 40), r.Err)
+		}
+		if r.Err == nil {
+			wellFormed(c, r, "gRPC request")
+		}
+	}
+	c.NonTrivial()
+	c.Class("service-binary")
+}
+
 func TestC15(t *testing.T) {
 	r := sim.NewRun(t, "C15")
 	defer r.Finish()
 	if r.Shard%2 == 1 {
 		sim.EnableDebugLogging() // odd shards run with every logging scope at debug level
 	}
-	r.Rule = "four generators, half of the shards with all logging scopes at debug level: (a) CheckRequests with nil at every level, absent header map, hostile cookie headers (no '=', many '=', ';;', NULs, 64 KiB, duplicated session cookies), hosts, schemes, paths and callback queries (malformed escapes, ';', 5000 parameters, fragments), aimed at an authenticated, a pending and an unknown session, through Process and through server.Check; (b) token-endpoint bodies from a JSON grammar (null, [], scalars, truncated, invalid UTF-8, duplicate keys, deep nesting, every member with every JSON type incl. 1e400) and validly signed ID tokens whose claims/headers have unexpected types, on the login and the refresh path; (c) odd discovery and JWKS documents; (d) half-empty store records and junk planted in Redis. Oracle: recover() => violation; verdict well-formedness. Non-trivial = the input got past request validation (an HTTP request was present) / reached the provider or the store; distinct = distinct input."
+	r.Rule = "four generators, half of the shards with all logging scopes at debug level: (a) CheckRequests with nil at every level, absent header map, hostile cookie headers (no '=', many '=', ';;', NULs, 64 KiB, duplicated session cookies), hosts, schemes, paths and callback queries (malformed escapes, ';', 5000 parameters, fragments), aimed at an authenticated, a pending and an unknown session, through Process and through server.Check; (b) token-endpoint bodies from a JSON grammar (null, [], scalars, truncated, invalid UTF-8, duplicate keys, deep nesting, every member with every JSON type incl. 1e400) and validly signed ID tokens whose claims/headers have unexpected types, on the login and the refresh path; (c) odd discovery and JWKS documents; (d) half-empty store records and junk planted in Redis; (e) hostile requests over gRPC (incl. request-id metadata) against the built service binary, where a panic shows as the death of the process. Oracle: recover() => violation; verdict well-formedness. Non-trivial = the input got past request validation (an HTTP request was present) / reached the provider or the store; distinct = distinct input."
 	r.Assumptions = []string{"a silent peer (no answer at all) is out of scope; every simulated peer answers or closes the connection"}
-	parts := map[string]func(*sim.Case){"requests": c15Requests, "bodies": c15Bodies, "documents": c15Documents, "stores": c15Stores}
+	parts := map[string]func(*sim.Case){"requests": c15Requests, "bodies": c15Bodies, "documents": c15Documents, "stores": c15Stores, "binary": c15Binary}
 	if r.Replay != "" {
 		r.ReplayFile(parts)
 		return
@@ -479,6 +542,7 @@ func TestC15(t *testing.T) {
 	r.Rapid("bodies", r.N(8000, 400000), c15Bodies)
 	r.Rapid("documents", r.N(1500, 40000), c15Documents)
 	r.Rapid("stores", r.N(3000, 80000), c15Stores)
+	r.Rapid("binary", r.N(80, 1500), c15Binary)
 }
 
 // ---- native fuzz targets (thorough tier) ----
